@@ -58,6 +58,10 @@ def build_menu(mk):
     both('getitem(0) (no change)', lambda r, e: (r[0], r)[1], lambda l, e: (l[0], l)[1])
     inplace('setitem slice [0:1]=[new]', lambda r, e: r.__setitem__(slice(0, 1), [e[0]]))
     inplace('delitem slice [0:1]', lambda r, e: r.__delitem__(slice(0, 1)))
+    inplace('delitem slice [0:2]', lambda r, e: r.__delitem__(slice(0, 2)))
+    inplace('delitem slice [1:]', lambda r, e: r.__delitem__(slice(1, None)))
+    inplace('setitem slice [0:2]=[new]', lambda r, e: r.__setitem__(slice(0, 2), [e[0]]))
+    both('sort(reverse=True)', lambda r, e: (r.sort(reverse=True), r)[1], 'sortrev')
     inplace('clear', lambda r, e: r.clear())
     both('sort', lambda r, e: (r.sort(), r)[1], None)
     # an edit followed by sort(): the list-side callable performs only the edit (it decides whether a plain list would raise);
@@ -78,7 +82,7 @@ def build_menu(mk):
     return M
 
 
-NMENU = 54
+NMENU = 58
 
 
 def make_history(ctx, start, first, length, big=0):
@@ -137,7 +141,7 @@ def make_history(ctx, start, first, length, big=0):
             if callable(f_ls):
                 shadow = exp
                 same_objs = True
-            elif f_ls is None or sortedit:       # sort (possibly after an edit): same multiset as the edited list, ordered
+            elif f_ls is None or sortedit or f_ls == 'sortrev':       # sort (possibly after an edit): same multiset as the edited list, ordered
                 same_objs = None
                 if sortedit: shadow = exp
             else:
@@ -152,7 +156,7 @@ def make_history(ctx, start, first, length, big=0):
             elif same_objs is None:
                 ok = len(cur) == len(shadow) and sorted(map(id, cur)) == sorted(map(id, shadow))
                 log.append((step, 'sort keeps the elements', ok, {}))
-                log.append((step, 'sort orders by value', ('sorted', [x.value for x in cur]), {}))
+                log.append((step, 'sort orders by value', ('sortedrev' if f_ls == 'sortrev' else 'sorted', [x.value for x in cur]), {}))
                 shadow = list(cur)
             else:
                 if same_objs == 'add_state':
@@ -200,6 +204,9 @@ def make_history(ctx, start, first, length, big=0):
                 elif ok[0] == 'sorted':
                     vs = [ctx.z(x) for x in ok[1]]
                     f = z3.And([a <= b for a, b in zip(vs, vs[1:])] or [z3.BoolVal(True)])
+                elif ok[0] == 'sortedrev':
+                    vs = [ctx.z(x) for x in ok[1]]
+                    f = z3.And([a >= b for a, b in zip(vs, vs[1:])] or [z3.BoolVal(True)])
                 elif ok[0] == 'eqvals':
                     f = z3.And([ctx.z(a) == ctx.z(b) for a, b in zip(ok[1], ok[2])] or [z3.BoolVal(True)])
             else:
